@@ -23,6 +23,16 @@ pub enum Slot {
 pub struct Host {
     pub fs: Arc<Mutex<Fs>>,
     pub slots: Vec<Option<Slot>>,
+    /// path each slot was opened with (for the `File::path` cross-check)
+    pub paths: Vec<Option<String>>,
+    /// op counter: decides deterministically which of two equivalent API calls is used
+    pub tick: u64,
+}
+
+impl Host {
+    pub fn new(fs: Arc<Mutex<Fs>>) -> Self {
+        Host { fs, slots: (0..NSLOTS).map(|_| None).collect(), paths: (0..NSLOTS).map(|_| None).collect(), tick: 0 }
+    }
 }
 
 pub fn block_on<F: Future>(fut: F) -> F::Output {
@@ -104,6 +114,19 @@ fn res_unit(r: std::io::Result<()>) -> String {
     }
 }
 
+/// Knob values under which C07 / C10 are stated (fault probabilities 0, capacity never reached):
+/// every second fs seed sets them explicitly instead of leaving the defaults (`noatime(false)` is
+/// documented to panic, so only `true`).  None of this may change an observation.
+pub fn neutral_knobs(c: &mut FsConfig, fsseed: u64) {
+    if fsseed % 2 == 0 {
+        c.capacity(1 << 30);
+        c.io_error_probability(0.0);
+        c.corruption_probability(0.0);
+        c.short_read_probability(0.0);
+        c.noatime(true);
+    }
+}
+
 pub fn new_fs(cfg: &crate::Cfg, host: usize) -> Fs {
     let mut c = FsConfig::default();
     if cfg.sync_p > 0 {
@@ -112,6 +135,7 @@ pub fn new_fs(cfg: &crate::Cfg, host: usize) -> Fs {
     if cfg.block > 0 {
         c.block_size(cfg.block);
     }
+    neutral_knobs(&mut c, cfg.fsseed);
     Fs::new(c, cfg.fsseed.wrapping_add(host as u64))
 }
 
@@ -184,6 +208,10 @@ pub fn exec_op(host: &mut Host, tok: bool, t: &[&str], pool: &[String]) -> Strin
     use tokio::io::{AsyncReadExt, AsyncSeekExt, AsyncWriteExt};
     let name = t[0];
     let slot_of = |s: &str| -> usize { s.parse::<usize>().unwrap_or(0) % NSLOTS };
+    // every second op uses the alternative, equivalent API entry point where there is one
+    host.tick += 1;
+    let alt = host.tick % 2 == 0;
+    let alt3 = host.tick % 3 == 0;
     match name {
         "open" => {
             let s = slot_of(t[1]);
@@ -191,21 +219,77 @@ pub fn exec_op(host: &mut Host, tok: bool, t: &[&str], pool: &[String]) -> Strin
             let flags = t[3];
             // an occupied slot is closed first (drop) so that the table stays a function
             host.slots[s] = None;
-            if tok {
-                match block_on(open_opts_tok(flags).open(path)) {
-                    Ok(f) => { host.slots[s] = Some(Slot::Tok(f)); "ok".into() }
-                    Err(e) => format!("err {}", err_class(&e)),
+            host.paths[s] = None;
+            // File::open == OpenOptions r, File::create == OpenOptions w+create+truncate;
+            // tokio File::from_std(std open) == tokio open
+            let r = if tok {
+                if alt && flags == "r" {
+                    block_on(tfs::File::open(path)).map(Slot::Tok)
+                } else if alt && flags == "wct" {
+                    block_on(tfs::File::create(path)).map(Slot::Tok)
+                } else if alt3 {
+                    open_opts_std(flags).open(path).map(|f| Slot::Tok(tfs::File::from_std(f)))
+                } else {
+                    block_on(open_opts_tok(flags).open(path)).map(Slot::Tok)
                 }
+            } else if alt && flags == "r" {
+                sfs::File::open(path).map(Slot::Std)
+            } else if alt && flags == "wct" {
+                sfs::File::create(path).map(Slot::Std)
             } else {
-                match open_opts_std(flags).open(path) {
-                    Ok(f) => { host.slots[s] = Some(Slot::Std(f)); "ok".into() }
-                    Err(e) => format!("err {}", err_class(&e)),
+                open_opts_std(flags).open(path).map(Slot::Std)
+            };
+            match r {
+                Ok(f) => {
+                    host.slots[s] = Some(f);
+                    host.paths[s] = Some(path.to_string());
+                    "ok".into()
                 }
+                Err(e) => format!("err {}", err_class(&e)),
             }
         }
         "close" => {
             let s = slot_of(t[1]);
-            if host.slots[s].take().is_some() { "ok".into() } else { "noslot".into() }
+            host.paths[s] = None;
+            match host.slots[s].take() {
+                // tokio File::into_std then drop == drop
+                Some(Slot::Tok(mut f)) if alt => {
+                    // AsyncWriteExt::shutdown is a no-op that must succeed
+                    if block_on(f.shutdown()).is_err() {
+                        return "xcheck shutdown".into();
+                    }
+                    drop(f.into_std());
+                    "ok".into()
+                }
+                Some(_) => "ok".into(),
+                None => "noslot".into(),
+            }
+        }
+        "clone" => {
+            // File::try_clone: a second handle on the same file, own cursor at 0
+            let s = slot_of(t[1]);
+            let s2 = slot_of(t[2]);
+            let r = match host.slots[s].as_ref() {
+                None => return "noslot".into(),
+                Some(Slot::Std(f)) => f.try_clone().map(Slot::Std),
+                Some(Slot::Tok(f)) => block_on(f.try_clone()).map(Slot::Tok),
+            };
+            match r {
+                Ok(f) => {
+                    let p = host.paths[s].clone();
+                    host.slots[s2] = Some(f);
+                    host.paths[s2] = p;
+                    "ok".into()
+                }
+                Err(e) => format!("err {}", err_class(&e)),
+            }
+        }
+        "copy" => {
+            let r = if tok { block_on(tfs::copy(t[1], t[2])) } else { sfs::copy(t[1], t[2]) };
+            match r {
+                Ok(n) => format!("ok {}", n),
+                Err(e) => format!("err {}", err_class(&e)),
+            }
         }
         "write_at" => {
             let s = slot_of(t[1]);
@@ -246,11 +330,11 @@ pub fn exec_op(host: &mut Host, tok: bool, t: &[&str], pool: &[String]) -> Strin
             match host.slots[s].as_mut() {
                 None => "noslot".into(),
                 Some(Slot::Std(f)) => match f.write(&data) {
-                    Ok(n) => format!("ok {}", n),
+                    Ok(n) => match f.flush() { Ok(()) => format!("ok {}", n), Err(_) => "xcheck flush".into() },
                     Err(e) => format!("err {}", err_class(&e)),
                 },
                 Some(Slot::Tok(f)) => match block_on(f.write(&data)) {
-                    Ok(n) => format!("ok {}", n),
+                    Ok(n) => match block_on(f.flush()) { Ok(()) => format!("ok {}", n), Err(_) => "xcheck flush".into() },
                     Err(e) => format!("err {}", err_class(&e)),
                 },
             }
@@ -323,13 +407,40 @@ pub fn exec_op(host: &mut Host, tok: bool, t: &[&str], pool: &[String]) -> Strin
                 Some(Slot::Std(f)) => f.metadata(),
                 Some(Slot::Tok(f)) => block_on(f.metadata()),
             };
+            // File::path / is_direct_io cross-check
+            let (fp, dio) = match host.slots[s].as_ref() {
+                Some(Slot::Std(f)) => (f.path(), f.is_direct_io()),
+                Some(Slot::Tok(_)) | None => (host.paths[s].clone().map(std::path::PathBuf::from), false),
+            };
+            if fp != host.paths[s].clone().map(std::path::PathBuf::from) || dio {
+                return "xcheck file-path".into();
+            }
             match r {
-                Ok(m) => format!("file {}", m.len()),
+                Ok(m) => {
+                    use std::os::unix::fs::MetadataExt;
+                    if m.size() != m.len() || !m.is_file() || m.is_dir() || m.file_type().is_dir() {
+                        return "xcheck file-metadata".into();
+                    }
+                    format!("file {}", m.len())
+                }
                 Err(e) => format!("err {}", err_class(&e)),
             }
         }
-        "mkdir" => res_unit(if tok { block_on(tfs::create_dir(t[1])) } else { sfs::create_dir(t[1]) }),
-        "mkdir_all" => res_unit(if tok { block_on(tfs::create_dir_all(t[1])) } else { sfs::create_dir_all(t[1]) }),
+        // DirBuilder::create == create_dir, DirBuilder::recursive(true).create == create_dir_all
+        "mkdir" => res_unit(if tok {
+            if alt { block_on(tfs::DirBuilder::new().create(t[1])) } else { block_on(tfs::create_dir(t[1])) }
+        } else if alt {
+            sfs::DirBuilder::new().create(t[1])
+        } else {
+            sfs::create_dir(t[1])
+        }),
+        "mkdir_all" => res_unit(if tok {
+            if alt { block_on(tfs::DirBuilder::new().recursive(true).create(t[1])) } else { block_on(tfs::create_dir_all(t[1])) }
+        } else if alt {
+            sfs::DirBuilder::new().recursive(true).create(t[1])
+        } else {
+            sfs::create_dir_all(t[1])
+        }),
         "rmdir" => res_unit(if tok { block_on(tfs::remove_dir(t[1])) } else { sfs::remove_dir(t[1]) }),
         "rmdir_all" => res_unit(if tok { block_on(tfs::remove_dir_all(t[1])) } else { sfs::remove_dir_all(t[1]) }),
         "unlink" => res_unit(if tok { block_on(tfs::remove_file(t[1])) } else { sfs::remove_file(t[1]) }),
@@ -338,12 +449,49 @@ pub fn exec_op(host: &mut Host, tok: bool, t: &[&str], pool: &[String]) -> Strin
         "read_dir" => {
             let r = if tok { block_on(tfs::read_dir(t[1])) } else { sfs::read_dir(t[1]) };
             match r {
-                Ok(rd) => format!("entries [{}]", names_of(rd).join(";")),
+                Ok(rd) => {
+                    // DirEntry::{path, file_name, file_type, metadata} against metadata(path)
+                    let ents: Vec<sfs::DirEntry> = rd.filter_map(|e| e.ok()).collect();
+                    for e in &ents {
+                        let p = e.path();
+                        if p != std::path::Path::new(t[1]).join(e.file_name()) {
+                            return "xcheck direntry-path".into();
+                        }
+                        match (e.metadata(), e.file_type(), sfs::metadata(&p)) {
+                            (Ok(em), Ok(ft), Ok(m)) => {
+                                if em.is_dir() != m.is_dir() || ft.is_dir() != m.is_dir() || ft.is_file() != m.is_file()
+                                    || em.len() != m.len() || ft.is_symlink()
+                                {
+                                    return "xcheck direntry-metadata".into();
+                                }
+                            }
+                            _ => return "xcheck direntry-missing".into(),
+                        }
+                    }
+                    let mut v: Vec<String> = ents.iter().map(|e| e.file_name().to_string_lossy().to_string()).collect();
+                    v.sort();
+                    v.dedup();
+                    format!("entries [{}]", v.join(";"))
+                }
                 Err(e) => format!("err {}", err_class(&e)),
             }
         }
         "stat" => {
             let r = if tok { block_on(tfs::metadata(t[1])) } else { sfs::metadata(t[1]) };
+            // symlink_metadata == metadata (there are no symlinks); Metadata accessors agree
+            let r2 = if tok { block_on(tfs::symlink_metadata(t[1])) } else { sfs::symlink_metadata(t[1]) };
+            match (&r, &r2) {
+                (Ok(m), Ok(m2)) => {
+                    use std::os::unix::fs::MetadataExt;
+                    if m.is_dir() != m2.is_dir() || m.len() != m2.len() || m.is_symlink() || m2.is_symlink()
+                        || m.is_file() == m.is_dir() || m.file_type().is_dir() != m.is_dir() || m.size() != m.len()
+                    {
+                        return "xcheck symlink-metadata".into();
+                    }
+                }
+                (Err(_), Err(_)) => {}
+                _ => return "xcheck symlink-metadata-result".into(),
+            }
             match r {
                 Ok(m) => if m.is_dir() { "dir".into() } else { format!("file {}", m.len()) },
                 Err(e) => format!("err {}", err_class(&e)),
@@ -355,6 +503,14 @@ pub fn exec_op(host: &mut Host, tok: bool, t: &[&str], pool: &[String]) -> Strin
         }
         "readfile" => {
             let r = if tok { block_on(tfs::read(t[1])) } else { sfs::read(t[1]) };
+            // read_to_string == read for utf-8 contents
+            let r2 = if tok { block_on(tfs::read_to_string(t[1])) } else { sfs::read_to_string(t[1]) };
+            match (&r, &r2) {
+                (Ok(b), Ok(s2)) => if b.as_slice() != s2.as_bytes() { return "xcheck read_to_string".into(); },
+                (Ok(b), Err(_)) => if std::str::from_utf8(b).is_ok() { return "xcheck read_to_string-err".into(); },
+                (Err(_), Ok(_)) => return "xcheck read_to_string-ok".into(),
+                (Err(_), Err(_)) => {}
+            }
             match r {
                 Ok(b) => format!("data {}", hex(&b)),
                 Err(e) => format!("err {}", err_class(&e)),
@@ -371,6 +527,9 @@ pub fn exec_op(host: &mut Host, tok: bool, t: &[&str], pool: &[String]) -> Strin
             for s in host.slots.iter_mut() {
                 *s = None;
             }
+            for p in host.paths.iter_mut() {
+                *p = None;
+            }
             host.fs.lock().unwrap().crash();
             "ok".into()
         }
@@ -382,10 +541,7 @@ pub fn run_case(case: &Case) -> Vec<String> {
     let mut out = Vec::with_capacity(case.ops.len() * 2 + 2);
     let r = std::panic::catch_unwind(std::panic::AssertUnwindSafe(|| {
         let mut hosts: Vec<Host> = (0..NHOSTS)
-            .map(|h| Host {
-                fs: Arc::new(Mutex::new(new_fs(&case.cfg, h))),
-                slots: (0..NSLOTS).map(|_| None).collect(),
-            })
+            .map(|h| Host::new(Arc::new(Mutex::new(new_fs(&case.cfg, h)))))
             .collect();
         let _ = turmoil_fs::verif::take();
         let mut lines: Vec<String> = vec![];
